@@ -539,7 +539,13 @@ func (mr *machineRun) run() {
 			}
 			name := k
 			if len(site.Triples) > 1 {
-				name = k + "@" + t.Source
+				src := t.Source
+				for ak, av := range sp.Alias {
+					if av == src {
+						src = ak // `alias tick=Interval()` names the subscription made on the value Interval() returns
+					}
+				}
+				name = k + "@" + src
 			}
 			roles = append(roles, roleBind{name, t, i})
 		}
